@@ -870,7 +870,7 @@ def selftest():
         print("%-10s evaluations=%d violations=%d programs=%s vectors=%s points=%s wall=%ss" % (
             name, r["evaluations"], r["info"]["violations_total"], c.get("programs"), c.get("branch_vectors"),
             c.get("observation_points"), r["info"].get("wall")))
-        for v in r["violations"][:3]:
+        for v in [v for v in r["violations"] if not v.get("sig")][:3]:
             print("   VIOLATION", v["what"])
             print("   ", json.dumps(v["input"], default=repr)[:1500])
         ok &= r["info"]["violations_total"] == 0 and r["evaluations"] > 0
